@@ -75,10 +75,28 @@ def check_encode(built, f, timeout):
                      "all admissible raw limb patterns", "int(encode(a)) == val(a) (mod q)")
     ob2 = Obligation(name + ":canonical", "L", [f.rust + "::encode"],
                      "all admissible raw limb patterns", "int(encode(a)) < q (unique representative)")
+    ob0 = Obligation(name + ":length", "L", [f.rust + "::encode"], "all admissible raw limb patterns",
+                     "the encoding has exactly %d bytes (ceil(bit length of the modulus / 8))" % f.enc_len)
+    try:
+        _, _, lo = sym_run(built, "drv_%s_enclen" % f.tag)
+        ln = lo["olen"][0]
+        if isinstance(ln, T.Term):
+            ob0.unknown("encoding length is not a constant in the optimized IR")
+        elif ln != f.enc_len:
+            nat = built.native("drv_%s_enclen" % f.tag, {"a": [0] * f.n})["olen"][0]
+            if nat != f.enc_len:
+                ob0.fail({"key": "%s.encode.length" % f.tag, "inputs": {"a": [0] * f.n}, "native_length": nat,
+                          "expected_length": f.enc_len, "found_by": "constant in the optimized IR, confirmed natively"}, "ir-constant", 0.0, 0)
+            else:
+                ob0.unknown("IR constant %s differs from native length" % ln)
+        else:
+            ob0.ok("constant in the optimized IR", 0.0, 0, syntactic=True)
+    except ExecError as e:
+        ob0.unknown("executor: %s" % e)
     try:
         ex, ins, outs = sym_run(built, drv)
     except ExecError as e:
-        return [ob1.unknown("executor: %s" % e), ob2.unknown("executor")]
+        return [ob0, ob1.unknown("executor: %s" % e), ob2.unknown("executor")]
     smp = limb_sampler(f, r)
     validate(built, drv, outs, smp, 24)
     enc = IntEnc()
@@ -106,7 +124,7 @@ def check_encode(built, f, timeout):
                            built, drv, extra=extra, timeout=timeout)
     decide(ob2, enc, "(<= 0 %s %d)" % (R.smt(), f.q - 1), built, drv, native_ok, extra=extra,
            timeout=timeout, hunt_sampler=smp, key="%s.encode" % f.tag)
-    return [ob1, ob2]
+    return [ob0, ob1, ob2]
 
 
 def check_decode(built, f, n, timeout):
@@ -259,6 +277,8 @@ def posed(kind, f, n, tier):
         return n <= 31
     if f.tag == "sc448":
         return n == 0
+    if f.tag == "gfgen256":
+        return n <= 63
     return n <= 64
 
 
@@ -269,28 +289,38 @@ def run_config(tier, cfg="default", features=None, rustflags="", only=None, fiel
     CFG[0] = cfg
     t0 = time.time()
     fields = [f for f in F.FIELDS if tier == "thorough" or f.tag in QUICK_FIELDS]
+    fields += [f for f in F.EXTRA_FIELDS if cfg == "default"]
     if only:
-        fields = [f for f in F.FIELDS if f.tag in only]
+        fields = [f for f in F.FIELDS + F.EXTRA_FIELDS if f.tag in only]
     reds = QUICK_RED if tier == "quick" else THOR_RED
     ds, items, skipped = [], [], []
     for f in fields:
         L = f.enc_len
         ds.append(enc_driver(f))
+        ds.append(F.enclen_driver(f))
         items.append(("enc", f, 0))
         for n in sorted(set([0, 1, L - 1, L, L + 1, 2 * L] + ([L - 8, L + 8, 3 * L] if tier != "quick" else []))):
             ds.append(dec_driver(f, n))
             items.append(("dec", f, n))
         for n in reds:
-            if posed("red", f, n, tier) or only:
+            if posed("red", f, n, tier) or (only and f.tag != "gfgen256"):
                 ds.append(red_driver(f, n))
                 items.append(("red", f, n))
             else:
                 skipped.append("%s.decode_reduce[len=%d]" % (f.tag, n))
-    built = build(ds, tag="C05-" + cfg, features=features, rustflags=rustflags)
+    from . import C05_bin as BN
+    bin_items = [] if (only and "bin" not in only) else BN.items()
+    if bin_items:
+        ds += BN.drivers()
+    built = build(ds, tag="C05-" + cfg, features=features, rustflags=rustflags,
+                  prelude="\n".join(getattr(f, "prelude", "") for f in fields))
     timeout = 60 if tier == "quick" else 600
+    items += [("bin", None, bi) for bi in bin_items]
 
     def work(it):
         kind, f, n = it
+        if kind == "bin":
+            return BN.check(built, n, timeout, cfg)
         if kind == "enc":
             return check_encode(built, f, timeout)
         if kind == "dec":
@@ -302,7 +332,7 @@ def run_config(tier, cfg="default", features=None, rustflags="", only=None, fiel
         if st == "ok":
             obs.extend(val)
         else:
-            o = Obligation(CFG[0] + ":%s.%s[%d]" % (it[1].tag, it[0], it[2]), "L")
+            o = Obligation(CFG[0] + ":%s.%s[%s]" % (it[1].tag if it[1] else "bin", it[0], str(it[2])), "L")
             o.unknown("%s: %s" % (st, str(val)[:300]))
             obs.append(o)
             if "MachineryError" in str(val):
@@ -324,7 +354,7 @@ def run(tier, only=None):
                                "moduli / Montgomery convention in props/fields.py",
                                "decode(encode(x)) == x and encode(decode(b)) == b follow by composing the "
                                "per-function claims at the representation boundary (all admissible limb patterns)"],
-                  outside=["binary-field encodings", "w32 / m51 backends (C18)",
+                  outside=["w32 / m51 backends (C18)",
                            "Montgomery types: value of a successful strict decode (status, zero-on-failure, length rejection, encode and reducing decode are posed)",
                            "not posed (no certificate within budget): " + ", ".join(skipped),
                            "Option-returning decode() wrappers (a branch on the status word; covered by C19)"],
